@@ -346,6 +346,25 @@ def gen_ops(rng, focus):
             o["cb_dt"] = {}
         return o
 
+    if rng.random() < 0.12:
+        # an infinite target time (either direction): only a terminal event ends such a call
+        sign = -1.0 if backward else 1.0
+
+        def topts():
+            o = opts(True)
+            o["events"] = [("y0", rng.choice([0.3, -0.5, 0.25]), rng.choice([1.0, -10.0]), 0, True)] + o["events"][:1]
+            o.pop("cb_raise", None)
+            return o
+        ops = [("new", t0, sign * float("inf"), dt), ("evint", None, topts())]
+        for _ in range(rng.choice([0, 1, 2])):
+            k = rng.choice(["int", "evint", "reset-evint"])
+            if k == "int":
+                ops.append(("int", t0 + sign * rng.uniform(2.0, 6.0), opts(False)))
+            elif k == "evint":
+                ops.append(("evint", None, topts()))
+            else:
+                ops += [("reset",), ("evint", None, topts())]
+        return rng.choice(METHODS), ops, rng.random() < 0.5
     ops = [("new", t0, tf, dt), ("evint", None, opts(True))]
     for _ in range(rng.choice([1, 2, 3, 4])):
         k = rng.choice(["evint", "evint", "evint-mid", "int", "setdt", "reset", "evint-back"])
